@@ -500,10 +500,10 @@ func (h *harness) checkSpec(spec *Spec, r *hx.Rand, nDocs int, sample bool) {
 		allF := fset(feats)
 		for i := 0; i < nDocs; i++ {
 			G := allF
-			switch r.Intn(4) {
-			case 0:
+			switch r.Intn(8) {
+			case 0, 1, 2, 3:
 				G = fset(F) // a document over erase(S,F)
-			case 1:
+			case 4, 5:
 				G = fset(hx.Pick(r, fsets))
 			}
 			d := genDoc(r.Fork(), origX, G)
